@@ -275,7 +275,8 @@ fn ordinary(h: &H, idx: u64, kp: &std::path::Path, scratch: &std::path::Path, rn
     let z = if rng.chance(0.3) { Some(rng.short_decimal(-50.0, 900.0, 1)) } else { None };
     let t = if rng.chance(0.3) { Some(rng.short_decimal(1990.0, 2030.0, 1)) } else { None };
     let inverse = invertible && rng.chance(0.25);
-    let roundtrip = invertible && !inverse && rng.chance(0.25);
+    // every combination of --inv and --roundtrip, also both at once (Inv then Fwd residuals)
+    let roundtrip = invertible && rng.chance(0.3);
     let mut args: Vec<String> = vec![op_text.to_string(), "-d".into(), decimals.to_string(), "-D".into(), dim.to_string()];
     if let Some(z) = z {
         args.push(format!("--height={}", num(z)));
@@ -333,7 +334,15 @@ fn ordinary(h: &H, idx: u64, kp: &std::path::Path, scratch: &std::path::Path, rn
         );
         return;
     }
-    h.class(&format!("ordinary/{}", if roundtrip { "roundtrip" } else if inverse { "inverse" } else { "forward" }));
+    h.class(&format!(
+        "ordinary/{}",
+        match (inverse, roundtrip) {
+            (true, true) => "inverse-roundtrip",
+            (false, true) => "roundtrip",
+            (true, false) => "inverse",
+            _ => "forward",
+        }
+    ));
     if !check_output(h, idx, "stdin", &args, &r.stdout, &want, decimals, dim) {
         return;
     }
@@ -466,5 +475,59 @@ fn errors(h: &H, idx: u64, kp: &std::path::Path, scratch: &std::path::Path, rng:
     let orderly = matches!(r.status, Some(s) if s != 0 && s != 101) && !r.stderr.trim().is_empty() && !r.stderr.contains("panicked");
     if !orderly {
         v(h, idx, "unreadable-file-not-reported-orderly", J::obj().set("file", missing).set("status", format!("{:?}", r.status)).set("stderr", r.stderr.chars().take(400).collect::<String>()));
+        return;
     }
+    // files that open but cannot be read as text: a directory, and bytes that are not UTF-8 at a
+    // random line (alone, and after a readable file): an error and a non-zero status, never a
+    // silent end of the data with status 0
+    let dir = scratch.join(format!("a_directory_{idx}"));
+    std::fs::create_dir_all(&dir).ok();
+    let r = run_kp(kp, &["addone".to_string(), dir.to_string_lossy().to_string()], None);
+    h.eval(1);
+    h.class("unreadable-file/directory");
+    if r.status == Some(0) || r.stderr.contains("panicked") {
+        v(h, idx, "unreadable-file-not-reported-orderly/directory", J::obj().set("status", format!("{:?}", r.status)).set("stdout", r.stdout.chars().take(100).collect::<String>()).set("stderr", r.stderr.chars().take(400).collect::<String>()));
+        let _ = std::fs::remove_dir(&dir);
+        return;
+    }
+    let _ = std::fs::remove_dir(&dir);
+    let n = 1 + rng.below(6);
+    let bad_at = rng.below(n);
+    let mut bytes: Vec<u8> = Vec::new();
+    for i in 0..n {
+        if i == bad_at {
+            match rng.below(3) {
+                0 => bytes.extend_from_slice(b"# K\xF8benhavn\n".as_slice()),
+                1 => bytes.extend_from_slice(b"55 12 \xFF\n".as_slice()),
+                _ => bytes.extend_from_slice(b"\xC3\n".as_slice()),
+            }
+        } else {
+            bytes.extend_from_slice(format!("{} {}\n", 50 + i, 10 + i).as_bytes());
+        }
+    }
+    let bad = scratch.join(format!("not_utf8_{idx}.txt"));
+    std::fs::write(&bad, &bytes).ok();
+    let good = scratch.join(format!("readable_{idx}.txt"));
+    std::fs::write(&good, "55 12\n56 13\n").ok();
+    for with_good_first in [false, true] {
+        let mut args = vec!["addone".to_string(), "-d".into(), "2".into()];
+        if with_good_first {
+            args.push(good.to_string_lossy().to_string());
+        }
+        args.push(bad.to_string_lossy().to_string());
+        let r = run_kp(kp, &args, None);
+        h.eval(1);
+        h.class("unreadable-file/not-utf8");
+        if r.status == Some(0) || r.stderr.contains("panicked") {
+            v(
+                h,
+                idx,
+                "unreadable-file-not-reported-orderly/not-utf8",
+                J::obj().set("kp_arguments", args).set("lines_in_file", n).set("bad_line", bad_at).set("status", format!("{:?}", r.status)).set("stdout_lines", r.stdout.lines().count()).set("stderr", r.stderr.chars().take(400).collect::<String>()),
+            );
+            break;
+        }
+    }
+    let _ = std::fs::remove_file(&bad);
+    let _ = std::fs::remove_file(&good);
 }
